@@ -12,7 +12,7 @@ import Artela.Model.Memory
   function names extracted from the running code's tables), so a table that wires an opcode differently behaves
   differently in the model as well.
 
-  Instructions that touch the world (SLOAD/SSTORE, BALANCE, EXT*, LOG, CALL*, CREATE*, SELFDESTRUCT, KECCAK256,
+  Instructions that touch the world (SLOAD/SSTORE, BALANCE, EXT*, LOG, CALL*, CREATE*, SELFDESTRUCT,
   BLOCKHASH, SELFBALANCE, TLOAD/TSTORE) are outside this layer: a run that reaches one ends with
   `Halt.unmodelled`, and the frame machine (M5) models what happens around nested frames.
   The journal instructions 0xe0–0xe7 dispatch to `Journal.exec` (M2).
@@ -121,6 +121,7 @@ inductive Instr where
   | pop | mload | mstore | mstore8
   | jump | jumpi | pc | msize | gas | jumpdest
   | mcopy
+  | keccak
   | push (n : Nat)            -- PUSH0 … PUSH32
   | dup (n : Nat) | swap (n : Nat)
   | ret | revert
@@ -186,6 +187,7 @@ def decode (exec : String) (op : Nat) : Option Instr :=
   else if exec = "opGas" then some .gas
   else if exec = "opJumpdest" then some .jumpdest
   else if exec = "opMcopy" then some .mcopy
+  else if exec = "opKeccak256" then some .keccak
   else if exec = "opPush0" then some (.push 0)
   else if exec = "opPush1" then some (.push 1)
   else if exec = "makePush" then some (.push (op - 0x5f))
@@ -226,6 +228,7 @@ structure IEnv (World : Type) where
   abort : Bool                       -- `evm.abort` as seen by this step
   table : Nat → Option Row           -- the fork's instruction table (undefined opcodes: `none`)
   mkEnv : World → Bytes → JEnv       -- the view a journal instruction takes of the world
+  keccak : Bytes → Word := fun _ => 0 -- keccak-256, uninterpreted
 
 inductive Halt where
   | stop
@@ -334,7 +337,7 @@ def memSizeOf (name : String) (st : List Word) : Option (Option (Nat × Bool)) :
     some (match back st 0, back st 2 with
           | some off, some len => some (calcMemSize64 off len)
           | _, _ => none)
-  else if name = "memoryReturn" ∨ name = "memoryRevert" then
+  else if name = "memoryReturn" ∨ name = "memoryRevert" ∨ name = "memoryKeccak256" then
     some (match back st 0, back st 1 with
           | some off, some len => some (calcMemSize64 off len)
           | _, _ => none)
@@ -369,6 +372,18 @@ def dynGasOf (name : String) (st : List Word) (memLen last memorySize : Nat) : D
       match gasMcopy memLen last memorySize len with
       | some (g, l) => .cost g l
       | none => .overflow
+  else if name = "gasKeccak256" then
+    -- memory fee plus `Keccak256WordGas` (6) per word hashed; the length is at stack position 1
+    match back st 1 with
+    | none => .stackPanic
+    | some len =>
+      match memoryGasCost memLen last memorySize with
+      | none => .overflow
+      | some (g, l) =>
+        if len ≥ U64 then .overflow
+        else if toWordSize len * 6 ≥ U64 then .overflow
+        else if g + toWordSize len * 6 ≥ U64 then .overflow
+        else .cost (g + toWordSize len * 6) l
   else if name = "gasExpFrontier" then
     match back st 1 with
     | none => .stackPanic
@@ -525,6 +540,14 @@ def exec (env : IEnv World) (i : Instr) (s : IState World) : Out (IState World) 
     | dst :: src :: len :: r =>
       match memCopyGo s.mem s.mem.length (dst % U64) (src % U64) (len % U64) with
       | .ok m => .next { s with stack := r, mem := m, pc := s.pc + 1 }
+      | .err e => .panic e
+      | .panic p => .panic p
+    | _ => stackPanic
+  | .keccak =>
+    match s.stack with
+    | off :: size :: r =>
+      match memGetPtr s.mem (off % U64) (size % U64) with
+      | .ok d => s.cont (env.keccak d % W256 :: r)
       | .err e => .panic e
       | .panic p => .panic p
     | _ => stackPanic
